@@ -10,6 +10,37 @@ CLASSES = [("tdfData3D", "Data3D"), ("tdfForce3D", "ForceTorque3D"), ("tdfEMG", 
 MUTATING = ("append", "remove", "insert", "pop", "clear", "extend", "sort", "reverse")
 
 
+NP_INPLACE_FUNCS = ("np.put", "np.place", "np.copyto", "np.putmask", "np.fill_diagonal", "numpy.put", "numpy.place", "numpy.copyto", "numpy.putmask")
+ARRAY_INPLACE_METHODS = ("sort", "fill", "resize", "partition", "itemset", "setfield", "put", "byteswap", "setflags")
+
+
+def inplace_effect(fn, roots):
+    """(node, why) for the first statement / call in `fn` that writes into an object reachable from the names in `roots`
+    (attribute or item store, mutating method, numpy call asked to work in place: copy=False / out=), else None."""
+    def rooted(e):
+        while isinstance(e, (ast.Attribute, ast.Subscript)):
+            e = e.value
+        return isinstance(e, ast.Name) and e.id in roots
+
+    for x in walk_no_nested(fn):
+        if isinstance(x, (ast.Assign, ast.AugAssign, ast.AnnAssign, ast.Delete)):
+            for t in (x.targets if isinstance(x, (ast.Assign, ast.Delete)) else [x.target]):
+                if isinstance(t, (ast.Attribute, ast.Subscript)) and rooted(t):
+                    return x, f"`{norm(head(x))[:60]}` stores into an operand"
+        if isinstance(x, ast.Call):
+            fname = norm(x.func)
+            if isinstance(x.func, ast.Attribute) and x.func.attr in MUTATING + ARRAY_INPLACE_METHODS and rooted(x.func.value) and isinstance(x.func.value, (ast.Attribute, ast.Subscript)):
+                return x, f"`{norm(x)[:60]}` changes an operand's data in place"
+            if fname in NP_INPLACE_FUNCS and x.args and rooted(x.args[0]):
+                return x, f"`{norm(x)[:60]}` writes into an operand's array"
+            for kw in x.keywords:
+                if kw.arg == "copy" and isinstance(kw.value, ast.Constant) and kw.value.value is False and fname.split(".")[0] in ("np", "numpy") and any(rooted(a) for a in x.args):
+                    return x, f"`{norm(x)[:60]}` (copy=False) overwrites an operand's array in place"
+                if kw.arg == "out" and rooted(kw.value):
+                    return x, f"`{norm(x)[:60]}` writes its result into an operand (out=)"
+    return None
+
+
 def self_attrs_read(node, sn="self"):
     return [n.attr for n in ast.walk(node) if is_self_attr(n, self_name=sn) and isinstance(n.ctx, ast.Load)]
 
@@ -293,6 +324,19 @@ def check_class(prog, rep, modname, cname):
             rep.ok("accessor-purity", f"{cname}.{n}: no store to self, no mutating call")
         else:
             rep.fail("accessor-purity", mod, f"{cname}.{n}", bad, "an accessor changes the block (store to self or mutating call)")
+    # membership by item object (`x in self.<items>`) compares with the items' own __eq__: that comparison must not write either
+    from .. import facts as _facts
+    for attr_ in set(containers.values()) if isinstance(containers, dict) else []:
+        k = _facts.element_class(prog, c, attr_)
+        eqf = k.get("__eq__") if k is not None else None
+        if eqf is None:
+            continue
+        bad = inplace_effect(eqf.node, {a.arg for a in eqf.node.args.args})
+        fq = f"{k.name}.__eq__"
+        if bad is None:
+            rep.ok("accessor-purity", f"{fq} (reached by `item in {cname}`): writes neither operand", nontrivial=True)
+        else:
+            rep.fail("accessor-purity", k.module.path.name, fq, bad[0], f"{bad[1]}: `item in block` (a read) then changes the tracks it is compared with", construct=f"{fq} {norm(bad[0])[:60]}")
 
 
 def run(prog, rep):
